@@ -936,6 +936,26 @@ def spark_timing(exe, sort_cols="value:asc"):
     return fast, slow, cmd
 
 
+def spark_row_timing(exe):
+    """`spark --cols 1` with the DEFAULT column order (`--sort-cols numeric`), one worker, one-line batches: `2 x`, `1 w`,
+    then `2 w` - once in one go, once with a pause before the third line, so that a periodic render trims column 1 and with
+    it the whole row w (its only cell), and the next sample re-creates that row.  A table aggregator that keeps a handle on
+    a row across the Trim (seeded/C03-table-row-cache, C03-table-lastrow-memo) loses the third sample in the paced run only."""
+    a, b = b"2 x\n1 w\n", b"2 w\n"
+    cmd = [exe, "--nocolor", "--noformat", "spark", "-m", r"(\w+) (\w+)", "-e", "{1}", "-e", "{2}", "--cols", "1",
+           "--workers", "1", "--readers", "1", "--batch", "1", "--csv", "-"]
+    fast = subprocess.run(cmd, input=a + b, stdout=subprocess.PIPE, stderr=subprocess.PIPE, timeout=60).stdout
+    p = subprocess.Popen(cmd, stdin=subprocess.PIPE, stdout=subprocess.PIPE, stderr=subprocess.PIPE)
+    p.stdin.write(a)
+    p.stdin.flush()
+    time.sleep(0.6)
+    p.stdin.write(b)
+    p.stdin.close()
+    slow = p.stdout.read()
+    p.wait(timeout=60)
+    return fast, slow, cmd
+
+
 def reduce_regressions(exe, work):
     """fixed defects, re-run on every check: `reduce --sort` with equal sort keys (row order came from map iteration)
     and the empty group key in `reduce --csv` (exported under the previous row's name)."""
@@ -1008,14 +1028,15 @@ def readable(sc, rows):
 
 def run_extra(ctx):
     rnd = Rand(ctx["seed"] * 1000003 + 3)
+    t_start = time.time()
     exe = build_rare(ctx)
     drv = Driver(ctx["driver"])
     work = os.path.join(ctx["work"], "e2e-%d" % os.getpid())     # two checks of one property may run at the same time
     thorough = ctx["tier"] != "quick"
     kinds = ["histo", "table", "heatmap", "spark", "bars", "analyze", "reduce"]
-    nscen = 70 if not thorough else 700
-    nconf = 5 if not thorough else 9
-    nphase = 16 if not thorough else 140
+    nscen = 56 if not thorough else 700
+    nconf = 4 if not thorough else 9
+    nphase = 12 if not thorough else 140
     layouts = ["split", "shuffle", "redeal", "gzip", "stdin", "glob", "one"]
     ncpu = str(max(2, os.cpu_count() or 2))
     KNOWN = ("snapshot-layout-memory", "analyze-mean-order")
@@ -1305,6 +1326,8 @@ def run_extra(ctx):
 
     # ---- class (b): phased corpora
     pk = ["bars", "table", "spark", "heatmap"]
+    t_sec = time.time()
+    stats["seconds.build"] = round(t_sec - t_start, 1)
     for si in range(nphase):
         sc = make_phase_scenario(rnd, pk[si % len(pk)])
         bump("phase.scenarios")
@@ -1312,13 +1335,15 @@ def run_extra(ctx):
         check_scenario(sc)
     # ---- class (a): late sampling
     t_late = time.time()
+    stats["seconds.phase"] = round(t_late - t_sec, 1)
     lk = ["table", "reduce", "spark", "bars", "histo", "heatmap", "analyze"]
     if not thorough:
-        # quick: the two commands with the widest window every time, two of the others per seed (time budget)
+        # quick: the two commands with the widest window every time, one of the others per seed (time budget; the draw of
+        # the second index is kept so that the random stream of the later sections is the one of earlier rounds)
         rest = lk[2:]
         i = rnd.intn(len(rest))
         j = (i + 1 + rnd.intn(len(rest) - 1)) % len(rest)
-        late_plan = [(k, LATE_SIZES[k][0][0], (2, 1, 1)) for k in lk[:2] + [rest[i], rest[j]]]
+        late_plan = [(k, LATE_SIZES[k][0][0], (2, 1, 1)) for k in lk[:2] + [rest[i]]]
     else:
         late_plan = [(k, sz, (3, 2, 1) if i == 0 else (2, 1, 1)) for k in lk for i, sz in enumerate(LATE_SIZES[k][1])]
     # the fast reference of the late scenarios against the general one (samples_of + py_rows), on small corpora of the same shape
@@ -1340,25 +1365,49 @@ def run_extra(ctx):
     for k, v in secs.items():
         stats[k] = round(v, 1)
     # ---- random corpora
+    t_sec = time.time()
     for si in range(nscen):
         kind = kinds[si % len(kinds)]
         sc = make_scenario(rnd, kind)
         sc.cls = "random"
         check_scenario(sc)
+    stats["seconds.random"] = round(time.time() - t_sec, 1)
+    t_sec = time.time()
     # ---- timing-controlled spark truncation (F24, fixed by b216f7d: a value-ordered column sort no longer trims)
-    fast, slow, cmd = spark_timing(exe)
+    # (the four timing-controlled pairs each sleep 0.6 s: run them side by side)
+    timed = {}
+    def _timed(name, fn, *a):
+        try:
+            timed[name] = fn(*a)
+        except Exception as e:  # reported below as a violation of that run
+            timed[name] = (b"", ("error: %s" % e).encode(), ["?"])
+    ths = [threading.Thread(target=_timed, args=x) for x in (("value", spark_timing, exe), ("VALUE", spark_timing, exe, "VALUE:Asc"),
+                                                             ("row", spark_row_timing, exe), ("layout", layout_memory_timing, exe))]
+    for th in ths:
+        th.start()
+    for th in ths:
+        th.join()
+    fast, slow, cmd = timed["value"]
     nruns[0] += 2
     if fast != slow or fast != b",a,b,c\nr,3,5,1\n":
         viol("spark-value-trim-timing", cmd=show(cmd), all_at_once=fast.decode(), with_pause=slow.decode(), expected=",a,b,c\nr,3,5,1\n",
              explanation="spark with a value-ordered column sort trims columns inside intermediate renders, so the exported table depends on render timing")
     # the same with an upper-case spelling of the value order (sort names are case-insensitive: seeded/C03-sortsbyvalue-case)
-    fast, slow, cmd = spark_timing(exe, "VALUE:Asc")
+    fast, slow, cmd = timed["VALUE"]
     nruns[0] += 2
     if fast != slow or fast != b",a,b,c\nr,3,5,1\n":
         viol("spark-value-trim-timing-spelling", cmd=show(cmd), all_at_once=fast.decode(), with_pause=slow.decode(), expected=",a,b,c\nr,3,5,1\n",
              explanation="spark with a value-ordered column sort trims columns inside intermediate renders, so the exported table depends on render timing")
+    # ---- a row emptied by a render's trim and sampled again right afterwards is a fresh row (default --sort-cols numeric)
+    fast, slow, cmd = timed["row"]
+    nruns[0] += 2
+    if fast != slow or fast != b",2\nw,1\nx,1\n":
+        viol("spark-row-after-trim-timing", cmd=show(cmd), all_at_once=fast.decode("utf8", "replace"), with_pause=slow.decode("utf8", "replace"),
+             expected=",2\nw,1\nx,1\n", input="2 x / 1 w / (0.6 s pause in the second run) / 2 w",
+             explanation="spark --cols 1: the render between the second and the third line trims column 1 and deletes the emptied row w; "
+                         "the third sample must re-create row w - the exported table must not depend on whether that render happened")
     # ---- timing-controlled padding of the final frame (F25)
-    fast, slow, cmd = layout_memory_timing(exe)
+    fast, slow, cmd = timed["layout"]
     nruns[0] += 2
     if fast != slow:
         if squash(fast) == squash(slow):
@@ -1381,6 +1430,7 @@ def run_extra(ctx):
     if outs != {want}:
         viol("reduce-sort-ties-empty-group", cmd=show(cmd), outputs=[o.decode("utf8", "replace") for o in sorted(outs)], expected=want.decode(),
              explanation="reduce --sort with equal sort keys / the empty group key: the CSV is not the deterministic reference")
+    stats["seconds.timingControlled"] = round(time.time() - t_sec, 1)
     drv.close()
     shutil.rmtree(work, ignore_errors=True)
     return {"runs": nruns[0], "violations": violations, "distribution": stats,
